@@ -94,6 +94,9 @@ def stateless_premise(ctx, report, rule_name, groups, extra=None, floor=3, stop=
                           "IBAN / BIC / BBAN argument is its text alone, so a result computed for one country, flag or bank is handed to a later call that differs only "
                           "in those - the outcome of a call then depends on the calls before it", f.where)
         for e in eff.direct_effects(f):
+            if e.kind == "tainted-mutation":
+                r.finding(f"{f.short}:{e.target}", f"{f.short} modifies the bundled registry data through {e.target!r} ({e.detail}) and is reached from this property's entry points "
+                          f"({eff.path_to(reach, f)}): the registry every later call is answered from is no longer the bundled one", e.where)
             if e.kind in ("global-store", "module-mutation", "default-mutation"):
                 r.finding(f"{f.short}:{e.target}", f"{f.short} keeps state in {e.target!r} ({e.kind}, {e.detail}) and is reached from this property's entry points "
                           f"({eff.path_to(reach, f)}): a later call, or a concurrent one, is answered from what an earlier call left there", e.where)
